@@ -562,6 +562,35 @@ var _ = late(func() {
 func rulePublishedImmutable(c *Ctx, r *R) {
 	n := 0
 	perFn := map[*ssa.Function]int{}
+	// what comes OUT of the atomic pointer (the result of Load, the old object Swap hands back) has been published: readers
+	// that loaded it copy its fields with no further synchronisation, so it is never written again - not even "to let the old
+	// value be collected" (oldInner.t = zero after the Swap makes a concurrent Value return a value that was never set)
+	for _, fn := range c.funcsOfPkg("xsync") {
+		if fn.Blocks == nil {
+			continue
+		}
+		k := 0
+		instrs(fn, func(_ *ssa.BasicBlock, _ int, in ssa.Instruction) {
+			st, ok := in.(*ssa.Store)
+			if !ok {
+				return
+			}
+			fa, ok := st.Addr.(*ssa.FieldAddr)
+			if !ok {
+				return
+			}
+			for _, lf := range valueLeaves(fa.X, nil, 0) {
+				call, isCall := lf.v.(*ssa.Call)
+				if !isCall {
+					continue
+				}
+				if op, _, ok := atomicPtrOp(call); ok && (op == "Load" || op == "Swap") {
+					k++
+					r.violated(c.nameOf(fn)+"|write-to-loaded#"+itoa(k), st.Pos(), "a field of an object obtained from the atomic pointer ("+op+") is written: that object has been published - a concurrent reader that loaded it copies its fields without synchronisation and can see the new (zeroed, half-written) contents, a value that was never Set")
+				}
+			}
+		})
+	}
 	for _, fn := range c.funcsOfPkg("xsync") {
 		if fn.Blocks == nil {
 			continue
